@@ -516,6 +516,28 @@ def register(kernel):
            tactic="intros; cbv [GEN]; lia")
 
 
+    # ------------------------------------------------------------------ C11: the record that save() writes, and when it refuses
+    kernel("C11", name="save_dataflow", kind="save-dataflow", file="qucumber/nn_states/neural_state.py", func="NeuralStateBase.save",
+           thm_params=[("st", "state"), ("md0", "option (list (key * val))")], gen_args="st md0", model="save_data st md0",
+           model_name="Store.save_data (the caller's metadata copied, reserved keys refused before anything is written, network dictionaries first, metadata merged last)",
+           imports=["Store"], tactic="intros st md0; cbv [GEN save_data]; cbv zeta; destruct (s_ud st); try reflexivity; "
+                  "repeat (match goal with |- context [match (if ?b then _ else _) with _ => _ end] => destruct b end); reflexivity",
+           cor_imports=["StoreT"],
+           corollaries=[("translated_save_refuses_the_reserved_unitary_dict_key",
+                         "forall st m, s_ud st <> None -> assoc K_UD m <> None -> GEN st (Some m) = None",
+                         "intros st m Hu Hk; rewrite TIE; exact (save_refuses_unitary_dict_key st m Hu Hk)"),
+                        ("translated_save_refuses_a_network_name_as_key",
+                         "forall st m nm, In nm (map fst (s_nets st)) -> assoc nm m <> None -> GEN st (Some m) = None",
+                         "intros st m nm Hin Hk; rewrite TIE; exact (save_refuses_network_key st m nm Hin Hk)"),
+                        ("translated_save_record_holds_networks_dictionary_and_metadata",
+                         "forall st m c, NoDup (map fst (s_nets st)) -> md_ok m -> GEN st (Some m) = Some c -> "
+                         "(forall nm n, assoc nm (s_nets st) = Some n -> assoc nm c = Some (FNet (n_params n))) /\\ "
+                         "(forall u, s_ud st = Some u -> assoc K_UD c = Some u) /\\ "
+                         "(forall k v, assoc k m = Some v -> assoc k c = Some (FVal v)) /\\ "
+                         "(forall k, assoc k (s_nets st) = None -> assoc k m = None -> (k <> K_UD \\/ s_ud st = None) -> assoc k c = None)",
+                         "intros st m c Hn Hm H; rewrite TIE in H; exact (save_data_lookup st m c Hn Hm H)")])
+
+
 def register_corollaries(cor):
     """property-level facts stated over SEVERAL generated kernels at once (compiled with the combined generated file)"""
     # C05: the Markov kernel assembled from the TRANSLATED conditionals satisfies detailed balance with respect to the weight
